@@ -173,6 +173,8 @@ async def check_ahb(ctx, case):
 def gen_ahb_case(rng, max_keys):
     def cond():
         pools = G.Pools(rc=["1", "2", "3"], hint=["501", "502"], fc=["901", "902"])
+        if rng.random() < 0.15:
+            return G.gen_neutral_only(rng, rng.randint(1, 2), pools, max_leaves=4)
         return G.gen_eval(rng, rng.randint(0, 2), pools, max_leaves=5)
 
     for _ in range(100):
@@ -194,6 +196,12 @@ async def run(ctx):
     for i in range(ctx.budget(1500, 150_000)):
         r = rng.random()
         ast = G.gen_eval(rng, rng.randint(1, 4), G.DEFAULT_POOLS if r < 0.85 else G.EDGE_POOLS, max_leaves=12 if r < 0.9 else 24)
+        if i % 6 == 5:
+            # hints and format constraints only: the "directly combines a single hint with a single format constraint" boundary
+            ast = G.gen_neutral_only(rng, rng.randint(1, 3))
+            if i % 12 == 5:
+                ast = [rng.choice(["and", "and", "or"]), ["rc", rng.choice(G.RC_POOL)], ast] if rng.random() < 0.5 else ast
+            ctx.count("neutral_only_expressions")
         case = {"ast": ast, "s": G.render(ast, rng)}
         check_direct(ctx, case)
         if i % 400 == 0:
